@@ -5,9 +5,11 @@ import (
 	"bytes"
 	"fmt"
 	"net/netip"
+	"os"
 	"testing"
 	"time"
 
+	"github.com/uhppoted/uhppote-core/types"
 	"github.com/uhppoted/uhppote-core/uhppote"
 	"pgregory.net/rapid"
 
@@ -157,6 +159,26 @@ func decideWarm(c cfgCase) (*rp.Fail, bool) {
 	u, d := hook.Mem(cfg)
 	if c.WarmVersion != 0 {
 		warmUp(u, d, c)
+	}
+	if c.Listening {
+		ev.Class("judged-call-made-while-the-event-listener-runs", 1)
+		l := quiet{up: make(chan struct{}, 1)}
+		stop := make(chan os.Signal)
+		done := make(chan error, 1)
+		go func() { done <- u.Listen(l, stop) }()
+		select {
+		case <-l.up:
+		case <-done:
+			done <- nil
+		case <-time.After(2 * time.Second):
+		}
+		defer func() {
+			close(stop)
+			select {
+			case <-done:
+			case <-time.After(2 * time.Second):
+			}
+		}()
 	}
 	d.Reset(validReply(cs.Call)...)
 	var res api.Result
@@ -494,7 +516,21 @@ type cfgCase struct {
 	// reports exactly the values the judged call is about to pass (valid or not). What a controller said earlier decides
 	// nothing about whether a call is accepted.
 	WarmVersion uint16 `json:"warm_version,omitempty"`
+	// Listening: the client's event listener is running while the judged call is made (a daemon that listens for events and
+	// manages its controllers from the same client). Whether a call is accepted is a matter of its arguments.
+	Listening bool `json:"listener_running,omitempty"`
 }
+
+type quiet struct{ up chan struct{} }
+
+func (q quiet) OnConnected() {
+	select {
+	case q.up <- struct{}{}:
+	default:
+	}
+}
+func (quiet) OnEvent(*types.Status) {}
+func (quiet) OnError(error) bool    { return true }
 
 var getFor = map[string]string{"PutCard": "GetCardByID", "SetTimeProfile": "GetTimeProfile", "SetListener": "GetListener", "SetDoorControlState": "GetDoorControlState",
 	"SetTime": "GetTime", "SetEventIndex": "GetEventIndex"}
@@ -532,6 +568,11 @@ func warmUp(u uhppote.IUHPPOTE, d *memdrv.Driver, c cfgCase) {
 
 func genCfgCase(t *rapid.T) cfgCase {
 	c := cfgCase{Case: genCase(t)}
+	c.Listening = rapid.IntRange(0, 3).Draw(t, "listening") == 0
+	if c.Listening && c.Case.Call.Op == "SetListener" && rapid.Bool().Draw(t, "events.off") {
+		// 0.0.0.0:0 - 'send no events' - is a value SetListener accepts
+		c.Case.V.ListenerRaw, c.Case.Call.Listener, c.Case.Call.Port = "", [4]byte{}, 0
+	}
 	call := &c.Case.Call
 	cfg := &c.Cfg
 	cfg.Debug = gen.Debug(t, "debug")
@@ -622,6 +663,7 @@ func props() []rp.Prop {
 		rp.P[api.Case]{Name: "args", Checks: ev.Pick(90000, 16000000) / ev.Shards(), Gen: genCase, Sweep: sweep, Check: check},
 		rp.P[bulkCase]{Name: "bulk-upload", Checks: ev.Pick(6000, 600000) / ev.Shards(), Gen: genBulk, Check: checkBulk},
 		rp.P[raceCase]{Name: "concurrent-validation", Checks: ev.Pick(60, 4000) / ev.Shards(), Gen: genConcurrent, Check: checkConcurrent},
+		rp.P[bypassCase]{Name: "argument-addresses-are-not-contacted", Checks: ev.Pick(60, 6000) / ev.Shards(), Gen: genBypass, Check: checkBypass},
 		rp.P[cfgCase]{Name: "args-configured", Checks: ev.Pick(60000, 8000000) / ev.Shards(), Gen: genCfgCase, Check: checkCfg},
 	}
 }
